@@ -642,6 +642,7 @@ LoadOps ==
     \cup {L("csv", "annotations", 1, "replace", a) : a \in 10..17}
     \* one ';'-separated part less (or more) in one column of every row of the annotations file
     \cup {L("csv", "annotations", 1, o, a) : o \in {"trimcol", "growcol"}, a \in 0..9}
+    \cup {L("csv", "annotations", 1, "dropcols", a) : a \in 1..4}
 
 \* C10: data search by set / key / value test, through the store and through the dataset
 FindOps == {RO("FindData", [set |-> sk[1], key |-> sk[2], op |-> ov[1], v |-> ov[2], via |-> via]) :
